@@ -70,6 +70,17 @@ def handle : List String → String
         let a := ss.foldl (doStep N I) ⟨start N 0, 0, [], [], []⟩
         s!"ok {" ".intercalate a.out} #N={N} I={I} {" ".intercalate a.tags}"
     | _, _, _, _ => "bad-op"
+  -- one round of ntok successful pings of `ping` ms each (sequential), queried `wait` ms after it completed: the age that
+  -- `stale` compares with three intervals runs from the COMPLETION of the round (Relic.Health.check stamps `now` there)
+  | ["slow", ntok, ping, wait, iv] =>
+    match ntok.toNat?, ping.toNat?, wait.toNat?, iv.toInt? with
+    | some nt, some p, some w, some iv =>
+      let N := normalizeFailures 3
+      let I := checkInterval (normalizeInterval iv)
+      let done : Int := ((nt * p : Nat) : Int)
+      let st := check N (start N 0) true done
+      s!"ok {httpCode (healthy false I st (done + (w : Int)))} #slow completed={done} age={w}"
+    | _, _, _, _ => "bad-op"
   | ["loop", k, _iv] =>
     match k.toNat? with
     | some k =>
